@@ -42,12 +42,13 @@ type State struct {
 	mval    map[string]string     // map ref -> (Array Int Bool|Int)
 	refs    []string
 	fresh   map[string]bool // refs allocated by the function under verification
+	esc     map[string]bool // fresh refs that were handed to code outside the function (may be aliased by later results)
 	from    *ssa.BasicBlock
 	lemmaIt int
 }
 
 func newState() *State {
-	return &State{pc: "true", cells: map[*ssa.Alloc]Val{}, ghost: map[string]Val{}, globs: map[string]Val{}, fv: map[*ssa.FreeVar]Val{}, defers: map[*ssa.Defer]string{}, heap: map[string]string{}, mdom: map[string]string{}, mval: map[string]string{}, fresh: map[string]bool{}}
+	return &State{pc: "true", cells: map[*ssa.Alloc]Val{}, ghost: map[string]Val{}, globs: map[string]Val{}, fv: map[*ssa.FreeVar]Val{}, defers: map[*ssa.Defer]string{}, heap: map[string]string{}, mdom: map[string]string{}, mval: map[string]string{}, fresh: map[string]bool{}, esc: map[string]bool{}}
 }
 
 func (s *State) clone() *State {
@@ -73,6 +74,9 @@ func (s *State) clone() *State {
 	}
 	for k, v := range s.fresh {
 		n.fresh[k] = v
+	}
+	for k, v := range s.esc {
+		n.esc[k] = v
 	}
 	n.lemmaIt = s.lemmaIt
 	n.hs = s.hs
@@ -760,6 +764,9 @@ func (g *Gen) merge(ins []*State) *State {
 		}
 		for r := range s.fresh {
 			out.fresh[r] = true
+		}
+		for r := range s.esc {
+			out.esc[r] = true
 		}
 	}
 	mk := map[string]bool{}
